@@ -6,6 +6,44 @@ import os
 HERE = os.path.dirname(os.path.dirname(os.path.abspath(__file__)))
 
 CLAIMED = {
+    "C01": dict(
+        category="translation_validation",
+        text="Translation validation of the real compiler passes: tvdump runs the real SsaTape::new, VmData::<N>::new and "
+             "RegTape::new::<N> natively on an exhaustively enumerated bounded program space (all SSA programs up to K ops over "
+             "the allocator-relevant shapes incl. every program that spills at N=3; all Context DAGs up to K interior nodes; every "
+             "opcode variant) and z3 decides, per (input, output) pair, that every output is equal for ALL input values. "
+             "Counterexamples are replayed through Context::eval vs the real VM evaluators.",
+        design="DESIGN.md §4 C01",
+        note="Trusted: z3 4.8.12; the symbolic executor of straight-line tapes (validated every run by native execution of sampled "
+             "programs and by a mutation self-test); opcodes are uninterpreted functions (min/max/and/or exact in FP theory for flattening). "
+             "Outside: programs larger than the enumeration bound; N in 6..254 except 8; per-opcode f32 semantics of the interpreter arms (see DESIGN.md).",
+        technique="SMT translation validation (z3, QF_UFBV/FP) of natively executed compiler passes over exhaustively enumerated programs",
+        engine="E-TV",
+    ),
+    "C04": dict(
+        category="translation_validation",
+        text="For every enumerated parent tape (1..4 choice clauses of all four kinds, reg/reg and reg/imm, shared clauses, two outputs), "
+             "every trace in {L,R,B}^k and depth-2 chains, the child produced by the real simplify_with::<M> is validated by z3: for all "
+             "input values compatible with the trace(s), every child output (SSA and register tape) is bit-identical to the parent's; "
+             "variable map, output count and choice count are preserved; a failure to simplify a producible trace is a violation.",
+        design="DESIGN.md §4 C04",
+        note="Trusted: z3 (UF+BV+FP); min/max/and/or encoded exactly in IEEE FP theory, other opcodes uninterpreted. A trace entry L/R is "
+             "modelled as 'clause result bit-identical to that operand' which the C20 Kani harnesses prove for every point of a traced box. "
+             "Outside: more than 4 clauses / K>4 nodes; RenderHandle cache; JIT-produced traces (until E-X).",
+        technique="SMT translation validation (z3 FP theory) of the natively executed simplify pass over enumerated tapes x all traces",
+        engine="E-TV",
+    ),
+    "C15": dict(
+        category="translation_validation",
+        text="Every register tape of the ALLOC-TV program space (N=3 forces Load/Store; every opcode variant and operand form) is "
+             "serialized by the real Bytecode::new; a decoder written from the module documentation only turns the words back into a "
+             "program and z3 decides that it computes the same outputs as the tape for all inputs; marker words, 0xFF immediate flags, "
+             "Mem direction flags, reg_count/mem_count bounds and the reserved register are checked on every tape.",
+        design="DESIGN.md §4 C15",
+        note="Trusted: z3; the documentation-based decoder; opcodes uninterpreted (Add/Mul commutative). Outside: WGSL interpreter; tapes beyond the enumeration bound.",
+        technique="SMT translation validation (z3) of Bytecode::new output decoded per the documented format",
+        engine="E-TV",
+    ),
     "C03": dict(
         category="model_checking",
         text="Bounded model checking (Kani/CBMC) of the real Interval kernels against the real point kernels: for every valid "
@@ -62,19 +100,16 @@ NOT_APPLICABLE = {
     "C17": "Scripts: the unit is the Rhai interpreter (string parser + dynamic dispatch), far beyond bounded symbolic execution here.",
     "C19": "Constraint solver: HashMap<Var,_> API, dynamic nalgebra matrices and an SVD-based LM loop; hash-map and nalgebra code alone cost minutes per call under CBMC and the claims are numeric.",
     # not yet built (kept current as checks are added)
-    "C01": "not yet built in this revision (planned: E-TV translation validation of SsaTape/RegTape, DESIGN.md §4)",
     "C02": "not yet built in this revision (planned: E-X x86-64 lifter, DESIGN.md §4)",
-    "C04": "not yet built in this revision (planned: E-TV over simplify, DESIGN.md §4)",
     "C10": "not yet built in this revision (planned, DESIGN.md §4)",
     "C12": "not yet built in this revision (planned: E-TV with FP theory, DESIGN.md §4)",
     "C13": "not yet built in this revision (planned, DESIGN.md §4)",
     "C14": "not yet built in this revision (planned, DESIGN.md §4)",
-    "C15": "not yet built in this revision (planned: E-TV over Bytecode::new, DESIGN.md §4)",
     "C16": "not yet built in this revision (planned, DESIGN.md §4)",
     "C18": "not yet built in this revision (planned, DESIGN.md §4)",
 }
 
-HOOK_COMMITS = []
+HOOK_COMMITS = ["6f64d81"]
 
 
 def main():
@@ -104,6 +139,8 @@ def main():
             "add_only": True,
         },
         "engines": [
+            {"name": "E-TV", "path": "/verif/tv", "serves_properties": ["C01", "C04", "C15"],
+             "kind_free_text": "tvdump (Rust, path dependency on /repo) runs the real compiler passes natively on enumerated programs; lib/tv_engine.py encodes each input/output pair for z3"},
             {"name": "E-K", "path": "/verif/kani", "serves_properties": ["C03", "C05", "C11", "C20"],
              "kind_free_text": "Kani 0.68 / CBMC 6.11 proof harnesses over the real fidget crates (path dependency on /repo), driven by /verif/check"},
         ],
